@@ -228,7 +228,8 @@ def _case(i):
     eol = '\r\n' if rng.random() < 0.15 else '\n'
     if eol != '\n':
         res['hist']['crlf_sessions'] = 1
-    p = C.run_proc([C.HYEONG, '--color', 'never'], (eol.join(script) + eol).encode('utf-8'), cpu=20)
+    last_eol = '' if (script and script[-1].strip() and rng.random() < 0.2) else eol     # a final line without line break
+    p = C.run_proc([C.HYEONG, '--color', 'never'], (eol.join(script) + last_eol).encode('utf-8'), cpu=20)
     info = {'program': text, 'lines_entered': script, 'source': name,
             'replay': "printf '%%s\\n' <lines> | %s --color never" % C.HYEONG}
     res['hist']['sessions'] = 1
